@@ -1,7 +1,9 @@
 /-
 C09 — Discrete crossovers and mutations conserve genes, lengths and permutations.
-Property theorems only; the model is `DeapModel/Core/CrossMut.lean`, helper lemmas are in
-`DeapModel/Lemmas/C09*.lean`.
+Property theorems only; the list model is `DeapModel/Core/CrossMut.lean`, the representation-aware
+model (buffers with the slice disciplines `copy` = list / array.array and `view` = numpy.ndarray)
+is `DeapModel/Core/Buffer.lean` + `DeapModel/Core/CrossMutBuf.lean` (section "Representation" at the
+end of this file); helper lemmas are in `DeapModel/Lemmas/C09*.lean`.
 
 Every theorem quantifies over all parents (any gene type with decidable equality, any length)
 and over all draws inside the range the `random` function in question can return (the `…Ok`
@@ -11,6 +13,7 @@ import DeapModel.Core.CrossMut
 import DeapModel.Lemmas.C09Basic
 import DeapModel.Lemmas.C09PMX
 import DeapModel.Lemmas.C09OX
+import DeapModel.Lemmas.C09BufferOps
 
 set_option linter.unusedSectionVars false
 set_option linter.unusedSimpArgs false
@@ -806,5 +809,413 @@ theorem in_place_es {σ : Type} (hg : Heap α) (hs : Heap σ) (o1 o2 s1 s2 pt1 p
   · intro o h1 h2; simp [inPlaceES, Heap.write, h1, h2]
 
 example : (0 : Nat) ≠ 1 := by decide
+
+
+/-! ## Representation: list / array.array (slices are copies) versus numpy.ndarray (slices are views)
+
+`Core/Buffer.lean` models the individuals as buffers in a heap with the two slice disciplines,
+`Core/CrossMutBuf.lean` re-expresses every operator over that interface as the Python code is
+written (namespace `CrossMutBuf`).  Heap-level statements: the individuals are any two different
+buffers `ind1 ≠ ind2` of any heap `h`; `Frame…` says what else is left alone.  `run2` / `run1` /
+`runES` are the special case the driver executes (argument objects 0, 1 of a fresh heap). -/
+section Repr
+open Buffer C09B
+
+/-! ### `copy` (list, array.array): every operator is the list model -/
+
+/-- one-point crossover on two different list / array.array objects: the call completes, returns its
+arguments, which now hold the children of the list model; no other existing object is written -/
+theorem copy_refines_list_onepoint (ind1 ind2 : Nat) (hne : ind1 ≠ ind2) (h : Buffer.Heap α)
+    (h1 : ind1 < h.next) (h2 : ind2 < h.next) (cx : Nat) :
+    ∃ h', CrossMutBuf.cxOnePoint .copy ind1 ind2 cx h = .ok (ind1, ind2) h' ∧
+      (h'.cell ind1, h'.cell ind2) = cxOnePoint (h.cell ind1) (h.cell ind2) cx ∧ Frame2A ind1 ind2 h h' :=
+  onepoint_copy_sim ind1 ind2 hne h h1 h2 cx
+
+theorem copy_refines_list_twopoint (ind1 ind2 : Nat) (hne : ind1 ≠ ind2) (h : Buffer.Heap α)
+    (h1 : ind1 < h.next) (h2 : ind2 < h.next) (c1 c2 : Nat) :
+    ∃ h', CrossMutBuf.cxTwoPoint .copy ind1 ind2 c1 c2 h = .ok (ind1, ind2) h' ∧
+      (h'.cell ind1, h'.cell ind2) = cxTwoPoint (h.cell ind1) (h.cell ind2) c1 c2 ∧ Frame2A ind1 ind2 h h' :=
+  twopoint_copy_sim ind1 ind2 hne h h1 h2 c1 c2
+
+theorem copy_refines_list_messy (ind1 ind2 : Nat) (hne : ind1 ≠ ind2) (h : Buffer.Heap α)
+    (h1 : ind1 < h.next) (h2 : ind2 < h.next) (c1 c2 : Nat) :
+    ∃ h', CrossMutBuf.cxMessyOnePoint .copy ind1 ind2 c1 c2 h = .ok (ind1, ind2) h' ∧
+      (h'.cell ind1, h'.cell ind2) = cxMessyOnePoint (h.cell ind1) (h.cell ind2) c1 c2 ∧ Frame2A ind1 ind2 h h' :=
+  messy_copy_sim ind1 ind2 hne h h1 h2 c1 c2
+
+/-- ES two-point crossover: individuals in one heap, their `strategy` objects in another -/
+theorem copy_refines_list_es {σ : Type} (ind1 ind2 s1 s2 : Nat) (hne : ind1 ≠ ind2) (hns : s1 ≠ s2)
+    (h : Buffer.Heap α × Buffer.Heap σ) (h1 : ind1 < h.1.next) (h2 : ind2 < h.1.next) (h3 : s1 < h.2.next) (h4 : s2 < h.2.next)
+    (pt1 pt2 : Nat) :
+    ∃ h', CrossMutBuf.cxESTwoPoint .copy .copy ind1 ind2 s1 s2 pt1 pt2 h = .ok (ind1, ind2) h' ∧
+      ((⟨h'.1.cell ind1, h'.2.cell s1⟩ : ESInd α σ), (⟨h'.1.cell ind2, h'.2.cell s2⟩ : ESInd α σ))
+        = cxESTwoPoint ⟨h.1.cell ind1, h.2.cell s1⟩ ⟨h.1.cell ind2, h.2.cell s2⟩ pt1 pt2 ∧
+      Frame2A ind1 ind2 h.1 h'.1 ∧ Frame2A s1 s2 h.2 h'.2 :=
+  es_copy_sim ind1 ind2 s1 s2 hne hns h h1 h2 h3 h4 pt1 pt2
+
+theorem copy_refines_list_inversion (ind : Nat) (h : Buffer.Heap α) (hlt : ind < h.next) (i1 i2 : Nat) :
+    ∃ h', CrossMutBuf.mutInversion .copy ind i1 i2 h = .ok ind h' ∧
+      h'.cell ind = mutInversion (h.cell ind) i1 i2 ∧
+      (∀ o, o < h.next → o ≠ ind → h'.cell o = h.cell o) ∧ h.next ≤ h'.next :=
+  inversion_copy_sim ind h hlt i1 i2
+
+example : (0 : Nat) ≠ 1 ∧ 0 < (heap2 [1, 2] [3, 4]).next ∧ 1 < (heap2 [1, 2] [3, 4]).next := by decide
+
+/-! ### the item-wise operators: the same for EVERY backing
+
+These operators reach the heap through `len`, `getItem`, `setItem` only, and a one-dimensional numpy
+array hands out scalars: for every discipline `d` the run completes under the operator's guard and
+computes the list model.  (The discipline parameter is not even used: see
+`elementwise_repr_independent`.) -/
+
+theorem refines_list_uniform (d : Disc) (ind1 ind2 : Nat) (hne : ind1 ≠ ind2) (ds : List Bool) (h : Buffer.Heap α) :
+    ∃ h', CrossMutBuf.cxUniform d ind1 ind2 ds h = .ok (ind1, ind2) h' ∧
+      (h'.cell ind1, h'.cell ind2) = cxUniform (h.cell ind1) (h.cell ind2) ds ∧ Frame2 ind1 ind2 h h' :=
+  uniform_sim d ind1 ind2 hne ds h
+
+/-- PMX: under the guard (`pmGenesOk`: the first `size` genes index the position tables; possible
+cut points) no subscript fails — for permutations see `pm_guard` — and the children are the list
+model's -/
+theorem refines_list_pmx (d : Disc) (ind1 ind2 : Nat) (hne : ind1 ≠ ind2) (h : Buffer.Heap Nat) (c1 c2 : Nat)
+    (hok : cxPartialyMatchedOk (h.cell ind1) (h.cell ind2) c1 c2) :
+    ∃ h', CrossMutBuf.cxPartialyMatched d ind1 ind2 c1 c2 h = .ok (ind1, ind2) h' ∧
+      (h'.cell ind1, h'.cell ind2) = cxPartialyMatched (h.cell ind1) (h.cell ind2) c1 c2 ∧ Frame2 ind1 ind2 h h' :=
+  pmx_sim d ind1 ind2 hne h c1 c2 hok
+
+theorem refines_list_upmx (d : Disc) (ind1 ind2 : Nat) (hne : ind1 ≠ ind2) (h : Buffer.Heap Nat) (ds : List Bool)
+    (hg : pmGenesOk (h.cell ind1) (h.cell ind2)) :
+    ∃ h', CrossMutBuf.cxUniformPartialyMatched d ind1 ind2 ds h = .ok (ind1, ind2) h' ∧
+      (h'.cell ind1, h'.cell ind2) = cxUniformPartialyMatched (h.cell ind1) (h.cell ind2) ds ∧
+      Frame2 ind1 ind2 h h' :=
+  upmx_sim d ind1 ind2 hne h ds hg
+
+/-- OX with its aliasing `temp1, temp2 = ind1, ind2`: reads and writes of the filling loop go to the same buffer -/
+theorem refines_list_ox (d : Disc) (ind1 ind2 : Nat) (hne : ind1 ≠ ind2) (h : Buffer.Heap Nat) (a0 b0 : Nat)
+    (hok : cxOrderedOk (h.cell ind1) (h.cell ind2) a0 b0) :
+    ∃ h', CrossMutBuf.cxOrdered d ind1 ind2 a0 b0 h = .ok (ind1, ind2) h' ∧
+      (h'.cell ind1, h'.cell ind2) = cxOrdered (h.cell ind1) (h.cell ind2) a0 b0 ∧ Frame2 ind1 ind2 h h' :=
+  ox_sim d ind1 ind2 hne h a0 b0 hok
+
+theorem refines_list_shuffle (d : Disc) (ind : Nat) (ds : List (Option Nat)) (h : Buffer.Heap α)
+    (hok : mutShuffleIndexesOk (h.cell ind) ds) :
+    ∃ h', CrossMutBuf.mutShuffleIndexes d ind ds h = .ok ind h' ∧
+      mutShuffleIndexes (h.cell ind) ds = some (h'.cell ind) ∧ Frame1 ind h h' :=
+  shuffle_sim d ind ds h hok
+
+theorem refines_list_flip [PyNot α] (d : Disc) (ind : Nat) (ds : List Bool) (h : Buffer.Heap α) :
+    ∃ h', CrossMutBuf.mutFlipBit d ind ds h = .ok ind h' ∧
+      h'.cell ind = mutFlipBit (h.cell ind) ds ∧ Frame1 ind h h' :=
+  flip_sim d ind ds h
+
+/-- whenever the list model goes through (bounds long enough, possible draws), so does the buffer run -/
+theorem refines_list_uniform_int (d : Disc) (ind : Nat) (low up : Bound) (ds : List (Option Int)) (h : Buffer.Heap Int)
+    (out : List Int) (hm : mutUniformInt (h.cell ind) low up ds = some out) :
+    ∃ h', CrossMutBuf.mutUniformInt d ind low up ds h = .ok ind h' ∧ h'.cell ind = out ∧ Frame1 ind h h' :=
+  uniformInt_sim d ind low up ds h out hm
+
+example : cxPartialyMatchedOk ((heap2 [2, 0, 1, 3] [3, 2, 1, 0]).cell 0) ((heap2 [2, 0, 1, 3] [3, 2, 1, 0]).cell 1) 4 1 := by decide
+example : pmGenesOk ((heap2 [2, 0, 1] [0, 2, 1]).cell 0) ((heap2 [2, 0, 1] [0, 2, 1]).cell 1) := by decide
+example : cxOrderedOk ((heap2 [0, 1, 2, 3, 4] [4, 3, 2, 1, 0]).cell 0) ((heap2 [0, 1, 2, 3, 4] [4, 3, 2, 1, 0]).cell 1) 3 1 := by decide
+example : mutShuffleIndexesOk ((heap1 [0, 1, 2, 3]).cell 0) [some 2, none, some 0, none] := by decide
+example : mutUniformInt ((heap1 [7, 7, 7]).cell 0) (.scalar 0) (.seq [1, 3, 5, 9]) [some 1, none, some 4] = some [1, 7, 4] := by decide
+
+/-- the item-wise operators do not depend on the slice discipline at all: as functions of the heap,
+the numpy (`view`) operator IS the list / array.array (`copy`) operator.  Hence every clause proved
+for the list model holds for numpy-backed individuals too (`*_any_backing` below). -/
+theorem elementwise_repr_independent (d : Disc) :
+    (∀ (ind1 ind2 : Nat) (ds : List Bool),
+      (CrossMutBuf.cxUniform d ind1 ind2 ds : M α (Nat × Nat)) = CrossMutBuf.cxUniform .copy ind1 ind2 ds) ∧
+    (∀ ind1 ind2 c1 c2, CrossMutBuf.cxPartialyMatched d ind1 ind2 c1 c2 = CrossMutBuf.cxPartialyMatched .copy ind1 ind2 c1 c2) ∧
+    (∀ ind1 ind2 ds, CrossMutBuf.cxUniformPartialyMatched d ind1 ind2 ds = CrossMutBuf.cxUniformPartialyMatched .copy ind1 ind2 ds) ∧
+    (∀ ind1 ind2 a0 b0, CrossMutBuf.cxOrdered d ind1 ind2 a0 b0 = CrossMutBuf.cxOrdered .copy ind1 ind2 a0 b0) ∧
+    (∀ (ind : Nat) (ds : List (Option Nat)),
+      (CrossMutBuf.mutShuffleIndexes d ind ds : M α Nat) = CrossMutBuf.mutShuffleIndexes .copy ind ds) ∧
+    (∀ [PyNot α] (ind : Nat) (ds : List Bool),
+      (CrossMutBuf.mutFlipBit d ind ds : M α Nat) = CrossMutBuf.mutFlipBit .copy ind ds) ∧
+    (∀ ind low up ds, CrossMutBuf.mutUniformInt d ind low up ds = CrossMutBuf.mutUniformInt .copy ind low up ds) :=
+  ⟨fun _ _ _ => rfl, fun _ _ _ _ => rfl, fun _ _ _ => rfl, fun _ _ _ _ => rfl, fun _ _ => rfl, fun _ _ => rfl,
+    fun _ _ _ _ => rfl⟩
+
+/-- summary in the form the driver executes (argument objects 0 and 1 of a fresh heap): under the
+`copy` discipline each buffer-level operator equals the list model, so every theorem of this file
+about the list model is a theorem about list- and array.array-backed individuals.  (The item-wise
+operators for every discipline `d`, in particular for `d = copy`.) -/
+theorem copy_refines_list (d : Disc) :
+    (∀ (l1 l2 : List α) cx, run2 (CrossMutBuf.cxOnePoint .copy 0 1 cx) l1 l2 = some (cxOnePoint l1 l2 cx)) ∧
+    (∀ (l1 l2 : List α) c1 c2, run2 (CrossMutBuf.cxTwoPoint .copy 0 1 c1 c2) l1 l2 = some (cxTwoPoint l1 l2 c1 c2)) ∧
+    (∀ (l1 l2 : List α) c1 c2, run2 (CrossMutBuf.cxTwoPoints .copy 0 1 c1 c2) l1 l2 = some (cxTwoPoints l1 l2 c1 c2)) ∧
+    (∀ (l1 l2 : List α) c1 c2, run2 (CrossMutBuf.cxMessyOnePoint .copy 0 1 c1 c2) l1 l2 = some (cxMessyOnePoint l1 l2 c1 c2)) ∧
+    (∀ (σ : Type) (i1 i2 : ESInd α σ) c1 c2,
+      CrossMutBuf.runES .copy .copy i1.genes i1.strategy i2.genes i2.strategy c1 c2 = some (cxESTwoPoint i1 i2 c1 c2)) ∧
+    (∀ (l1 l2 : List α) ds, run2 (CrossMutBuf.cxUniform d 0 1 ds) l1 l2 = some (cxUniform l1 l2 ds)) ∧
+    (∀ l1 l2 c1 c2, cxPartialyMatchedOk l1 l2 c1 c2 →
+      run2 (CrossMutBuf.cxPartialyMatched d 0 1 c1 c2) l1 l2 = some (cxPartialyMatched l1 l2 c1 c2)) ∧
+    (∀ l1 l2 ds, pmGenesOk l1 l2 →
+      run2 (CrossMutBuf.cxUniformPartialyMatched d 0 1 ds) l1 l2 = some (cxUniformPartialyMatched l1 l2 ds)) ∧
+    (∀ l1 l2 a0 b0, cxOrderedOk l1 l2 a0 b0 →
+      run2 (CrossMutBuf.cxOrdered d 0 1 a0 b0) l1 l2 = some (cxOrdered l1 l2 a0 b0)) ∧
+    (∀ (l : List α) ds, mutShuffleIndexesOk l ds →
+      (run1 (CrossMutBuf.mutShuffleIndexes d 0 ds) l) = mutShuffleIndexes l ds) ∧
+    (∀ [PyNot α] (l : List α) ds, run1 (CrossMutBuf.mutFlipBit d 0 ds) l = some (mutFlipBit l ds)) ∧
+    (∀ l low up ds out, mutUniformInt l low up ds = some out →
+      run1 (CrossMutBuf.mutUniformInt d 0 low up ds) l = some out) ∧
+    (∀ (l : List α) i1 i2, run1 (CrossMutBuf.mutInversion .copy 0 i1 i2) l = some (mutInversion l i1 i2)) := by
+  have ne : (0 : Nat) ≠ 1 := by decide
+  refine ⟨?_, ?_, ?_, ?_, ?_, ?_, ?_, ?_, ?_, ?_, ?_, ?_, ?_⟩
+  · intro l1 l2 cx
+    obtain ⟨h', e, c, _⟩ := onepoint_copy_sim 0 1 ne (heap2 l1 l2) (show 0 < 2 by omega) (show 1 < 2 by omega) cx
+    rw [run2_of_ok e, c]; rfl
+  · intro l1 l2 c1 c2
+    obtain ⟨h', e, c, _⟩ := twopoint_copy_sim 0 1 ne (heap2 l1 l2) (show 0 < 2 by omega) (show 1 < 2 by omega) c1 c2
+    rw [run2_of_ok e, c]; rfl
+  · intro l1 l2 c1 c2
+    obtain ⟨h', e, c, _⟩ := twopoint_copy_sim 0 1 ne (heap2 l1 l2) (show 0 < 2 by omega) (show 1 < 2 by omega) c1 c2
+    show run2 (CrossMutBuf.cxTwoPoint .copy 0 1 c1 c2) l1 l2 = _
+    rw [run2_of_ok e, c]; rfl
+  · intro l1 l2 c1 c2
+    obtain ⟨h', e, c, _⟩ := messy_copy_sim 0 1 ne (heap2 l1 l2) (show 0 < 2 by omega) (show 1 < 2 by omega) c1 c2
+    rw [run2_of_ok e, c]; rfl
+  · intro σ i1 i2 c1 c2
+    obtain ⟨h', e, c, _⟩ := es_copy_sim 0 1 0 1 ne ne (heap2 i1.genes i2.genes, heap2 i1.strategy i2.strategy)
+      (show 0 < 2 by omega) (show 1 < 2 by omega) (show 0 < 2 by omega) (show 1 < 2 by omega) c1 c2
+    simp only [CrossMutBuf.runES, e]
+    rw [c]; rfl
+  · intro l1 l2 ds
+    obtain ⟨h', e, c, _⟩ := uniform_sim d 0 1 ne ds (heap2 l1 l2)
+    rw [run2_of_ok e, c]; rfl
+  · intro l1 l2 c1 c2 hok
+    obtain ⟨h', e, c, _⟩ := pmx_sim d 0 1 ne (heap2 l1 l2) c1 c2 hok
+    rw [run2_of_ok e, c]; rfl
+  · intro l1 l2 ds hok
+    obtain ⟨h', e, c, _⟩ := upmx_sim d 0 1 ne (heap2 l1 l2) ds hok
+    rw [run2_of_ok e, c]; rfl
+  · intro l1 l2 a0 b0 hok
+    obtain ⟨h', e, c, _⟩ := ox_sim d 0 1 ne (heap2 l1 l2) a0 b0 hok
+    rw [run2_of_ok e, c]; rfl
+  · intro l ds hok
+    obtain ⟨h', e, c, _⟩ := shuffle_sim d 0 ds (heap1 l) hok
+    rw [run1_of_ok e]; exact c.symm
+  · intro _ l ds
+    obtain ⟨h', e, c, _⟩ := flip_sim d 0 ds (heap1 l)
+    rw [run1_of_ok e, c]; rfl
+  · intro l low up ds out hm
+    obtain ⟨h', e, c, _⟩ := uniformInt_sim d 0 low up ds (heap1 l) out hm
+    rw [run1_of_ok e, c]
+  · intro l i1 i2
+    obtain ⟨h', e, c, _⟩ := inversion_copy_sim 0 (heap1 l) (show 0 < 1 by omega) i1 i2
+    rw [run1_of_ok e, c]; rfl
+
+/-! ### `view` (numpy.ndarray): the slice-swapping crossovers lose genes, the inversion does not -/
+
+/-- `mutInversion` slices, but is representation independent all the same: under the guard (draws of
+`randrange(size)`) the numpy run and the list / array.array run both complete and leave the list
+model's mutant in the individual.  (`individual[start:end][::-1]` is a reversed window onto the
+individual itself; numpy's slice assignment reads an overlapping right-hand side completely before
+writing.) -/
+theorem inversion_repr_independent (ind : Nat) (h : Buffer.Heap α) (hlt : ind < h.next) (i1 i2 : Nat)
+    (hok : mutInversionOk (h.cell ind) i1 i2) :
+    ∃ hv hc, CrossMutBuf.mutInversion .view ind i1 i2 h = .ok ind hv ∧
+      CrossMutBuf.mutInversion .copy ind i1 i2 h = .ok ind hc ∧
+      hv.cell ind = hc.cell ind ∧ hv.cell ind = mutInversion (h.cell ind) i1 i2 ∧
+      (∀ o, o ≠ ind → hv.cell o = h.cell o) ∧ hv.next = h.next := by
+  obtain ⟨hv, ev, cv, fv, nv⟩ := inversion_view_sim ind h i1 i2 hok
+  obtain ⟨hc, ec, cc, _⟩ := inversion_copy_sim ind h hlt i1 i2
+  exact ⟨hv, hc, ev, ec, by rw [cv, cc], cv, fv, nv⟩
+
+example : mutInversionOk ((heap1 [0, 1, 2, 3, 4]).cell 0) 3 1 ∧ 0 < (heap1 [0, 1, 2, 3, 4]).next := by decide
+example : run1 (CrossMutBuf.mutInversion (α := Nat) .view 0 3 1) [0, 1, 2, 3, 4] = some [0, 2, 1, 3, 4] := by decide
+
+/-- the two-point crossover on numpy-backed individuals, for every pair of parents and every possible
+pair of draws: the call completes, child 1 is the child the list model computes, and child 2 is
+STILL PARENT 2 — the segment of parent 1 is gone (`doc/tutorials/advanced/numpy.rst`) -/
+theorem twopoint_view_exact (ind1 ind2 : Nat) (hne : ind1 ≠ ind2) (h : Buffer.Heap α) (c1 c2 : Nat)
+    (hok : cxTwoPointOk (h.cell ind1) (h.cell ind2) c1 c2) :
+    ∃ h', CrossMutBuf.cxTwoPoint .view ind1 ind2 c1 c2 h = .ok (ind1, ind2) h' ∧
+      h'.cell ind1 = (cxTwoPoint (h.cell ind1) (h.cell ind2) c1 c2).1 ∧ h'.cell ind2 = h.cell ind2 ∧
+      Frame2 ind1 ind2 h h' :=
+  twopoint_view_sim ind1 ind2 hne h c1 c2 hok
+
+/-- likewise the one-point crossover on numpy-backed individuals of equal length -/
+theorem onepoint_view_exact (ind1 ind2 : Nat) (hne : ind1 ≠ ind2) (h : Buffer.Heap α) (cx : Nat)
+    (hlen : (h.cell ind1).length = (h.cell ind2).length) :
+    ∃ h', CrossMutBuf.cxOnePoint .view ind1 ind2 cx h = .ok (ind1, ind2) h' ∧
+      h'.cell ind1 = (cxOnePoint (h.cell ind1) (h.cell ind2) cx).1 ∧ h'.cell ind2 = h.cell ind2 ∧
+      Frame2 ind1 ind2 h h' :=
+  onepoint_view_sim ind1 ind2 hne h cx hlen
+
+/-- and the strategy-carrying variant with numpy individuals and numpy strategies: individual 2 keeps
+its genes and its strategy -/
+theorem es_view_exact {σ : Type} (ind1 ind2 s1 s2 : Nat) (hne : ind1 ≠ ind2) (hns : s1 ≠ s2)
+    (h : Buffer.Heap α × Buffer.Heap σ) (pt1 pt2 : Nat)
+    (hok : cxTwoPointOk (h.1.cell ind1) (h.1.cell ind2) pt1 pt2)
+    (hl1 : (h.1.cell ind1).length = (h.2.cell s1).length) (hl2 : (h.1.cell ind2).length = (h.2.cell s2).length) :
+    ∃ h', CrossMutBuf.cxESTwoPoint .view .view ind1 ind2 s1 s2 pt1 pt2 h = .ok (ind1, ind2) h' ∧
+      (⟨h'.1.cell ind1, h'.2.cell s1⟩ : ESInd α σ)
+        = (cxESTwoPoint ⟨h.1.cell ind1, h.2.cell s1⟩ ⟨h.1.cell ind2, h.2.cell s2⟩ pt1 pt2).1 ∧
+      h'.1.cell ind2 = h.1.cell ind2 ∧ h'.2.cell s2 = h.2.cell s2 ∧
+      Frame2 ind1 ind2 h.1 h'.1 ∧ Frame2 s1 s2 h.2 h'.2 :=
+  es_view_sim ind1 ind2 s1 s2 hne hns h pt1 pt2 hok hl1 hl2
+
+example : cxTwoPointOk ((heap2 [1, 2, 3, 4] [5, 6, 7, 8]).cell 0) ((heap2 [1, 2, 3, 4] [5, 6, 7, 8]).cell 1) 1 2 := by decide
+example : ((heap2 [1, 2] [3, 4]).cell 0).length = ((heap2 [1, 2] [3, 4]).cell 1).length := by decide
+example : cxTwoPointOk ((heap2 [1, 2, 3] [4, 5, 6], heap2 [10, 20, 30] [40, 50, 60]).1.cell 0)
+      ((heap2 [1, 2, 3] [4, 5, 6], heap2 [10, 20, 30] [40, 50, 60]).1.cell 1) 1 1 ∧
+    ((heap2 [1, 2, 3] [4, 5, 6], heap2 [10, 20, 30] [40, 50, 60]).1.cell 0).length
+      = ((heap2 [1, 2, 3] [4, 5, 6], heap2 [10, 20, 30] [40, 50, 60]).2.cell 0).length := by decide
+
+/-- the boundary, exactly: on numpy-backed parents the two-point crossover conserves the combined
+multiset of genes iff the two exchanged segments happen to hold the same genes -/
+theorem twopoint_view_conserves_iff [DecidableEq α] (ind1 ind2 : Nat) (hne : ind1 ≠ ind2) (h h' : Buffer.Heap α)
+    (c1 c2 : Nat) (hok : cxTwoPointOk (h.cell ind1) (h.cell ind2) c1 c2) (r : Nat × Nat)
+    (hrun : CrossMutBuf.cxTwoPoint .view ind1 ind2 c1 c2 h = .ok r h') :
+    (h'.cell ind1 ++ h'.cell ind2).Perm (h.cell ind1 ++ h.cell ind2) ↔
+      (pySlice (h.cell ind2) (normCx c1 c2).1 (normCx c1 c2).2).Perm
+        (pySlice (h.cell ind1) (normCx c1 c2).1 (normCx c1 c2).2) := by
+  obtain ⟨h'', e, k1, k2, _⟩ := twopoint_view_sim ind1 ind2 hne h c1 c2 hok
+  have : h'' = h' := by
+    rw [e] at hrun
+    cases hrun; rfl
+  subst this
+  obtain ⟨g1, g2, g3, g4⟩ := hok
+  have hn := normCx_spec c1 c2 _ g1 g2 g3 g4
+  rw [k1, k2]
+  simp only [cxTwoPoint, CrossMut.sliceAssign, pySlice]
+  generalize normCx c1 c2 = c at hn
+  rw [show max c.1 c.2 = c.2 by omega]
+  rw [List.perm_iff_count, List.perm_iff_count]
+  have sp := fun z => congrArg (List.count z) (split3 (h.cell ind1) c.1 c.2 (by omega))
+  constructor
+  · intro hh z
+    have := hh z; have := sp z
+    simp only [List.count_append] at *
+    omega
+  · intro hh z
+    have := hh z; have := sp z
+    simp only [List.count_append] at *
+    omega
+
+example : ∃ r h', CrossMutBuf.cxTwoPoint .view 0 1 1 2 (heap2 [1, 2, 3, 4] [5, 6, 7, 8]) = .ok r h' := by
+  obtain ⟨h', e, _⟩ := twopoint_view_exact 0 1 (by decide) (heap2 [1, 2, 3, 4] [5, 6, 7, 8]) 1 2 (by decide)
+  exact ⟨_, h', e⟩
+
+/-- concrete witnesses inside every guard: under the `view` discipline the slice-swapping crossovers
+do NOT conserve the combined multiset of genes (equal lengths: the second child is the unchanged
+second parent), and for parents of different lengths the one-point and the messy crossover raise
+numpy's `ValueError` (no broadcast) — after the first store already changed the first parent.  The
+documented restriction (numpy.rst: re-implement these operators with explicit copies) is exactly
+the boundary: the positive statements `*_multiset`, `*_locus`, `es_pairs*` are claimed for the
+`copy` discipline only (`copy_refines_list`), the item-wise operators and the inversion for both. -/
+theorem slice_swap_view_loses_genes :
+    -- cxOnePoint
+    (cxOnePointOk [1, 2] [3, 4] 1 ∧
+      run2 (CrossMutBuf.cxOnePoint .view 0 1 1) [1, 2] [3, 4] = some ([1, 4], [3, 4]) ∧
+      ¬ ([1, 4] ++ [3, 4]).Perm ([1, 2] ++ [3, 4])) ∧
+    (cxOnePointOk [1, 2, 3] [4, 5] 1 ∧ run2 (CrossMutBuf.cxOnePoint .view 0 1 1) [1, 2, 3] [4, 5] = none) ∧
+    -- cxTwoPoint (the example of numpy.rst: `a[1:3], b[1:3] = b[1:3], a[1:3]`)
+    (cxTwoPointOk [1, 2, 3, 4] [5, 6, 7, 8] 1 2 ∧
+      run2 (CrossMutBuf.cxTwoPoint .view 0 1 1 2) [1, 2, 3, 4] [5, 6, 7, 8] = some ([1, 6, 7, 4], [5, 6, 7, 8]) ∧
+      ¬ ([1, 6, 7, 4] ++ [5, 6, 7, 8]).Perm ([1, 2, 3, 4] ++ [5, 6, 7, 8])) ∧
+    -- cxMessyOnePoint
+    (cxMessyOnePointOk [1, 2] [3, 4] 1 1 ∧
+      run2 (CrossMutBuf.cxMessyOnePoint .view 0 1 1 1) [1, 2] [3, 4] = some ([1, 4], [3, 4]) ∧
+      ¬ ([1, 4] ++ [3, 4]).Perm ([1, 2] ++ [3, 4])) ∧
+    (cxMessyOnePointOk [1, 2, 3] [4, 5] 0 1 ∧ run2 (CrossMutBuf.cxMessyOnePoint .view 0 1 0 1) [1, 2, 3] [4, 5] = none) ∧
+    -- cxESTwoPoint: the (gene, strategy) pairs of the first parent's segment are lost
+    (cxESTwoPointOk (⟨[1, 2, 3], [10, 20, 30]⟩ : ESInd Nat Nat) ⟨[4, 5, 6], [40, 50, 60]⟩ 1 1 ∧
+      CrossMutBuf.runES .view .view [1, 2, 3] [10, 20, 30] [4, 5, 6] [40, 50, 60] 1 1
+        = some (⟨[1, 5, 3], [10, 50, 30]⟩, ⟨[4, 5, 6], [40, 50, 60]⟩) ∧
+      ¬ (List.zip [1, 5, 3] [10, 50, 30] ++ List.zip [4, 5, 6] [40, 50, 60]).Perm
+          (List.zip [1, 2, 3] [10, 20, 30] ++ List.zip [4, 5, 6] [40, 50, 60])) ∧
+    -- numpy individuals with list strategies: gene and strategy value no longer travel together
+    (CrossMutBuf.runES .view .copy [1, 2, 3] [10, 20, 30] [4, 5, 6] [40, 50, 60] 1 1
+        = some (⟨[1, 5, 3], [10, 50, 30]⟩, ⟨[4, 5, 6], [40, 20, 60]⟩)) ∧
+    -- the same inputs under `copy`
+    (run2 (CrossMutBuf.cxTwoPoint .copy 0 1 1 2) [1, 2, 3, 4] [5, 6, 7, 8] = some ([1, 6, 7, 4], [5, 2, 3, 8])) := by
+  decide
+
+/-! ### the clauses of the property for every backing (list, array.array, numpy.ndarray) -/
+
+/-- uniform crossover: the call completes and multiset, loci and lengths are conserved -/
+theorem uniform_any_backing [DecidableEq α] (d : Disc) (l1 l2 : List α) (ds : List Bool) :
+    ∃ c, run2 (CrossMutBuf.cxUniform d 0 1 ds) l1 l2 = some c ∧ (c.1 ++ c.2).Perm (l1 ++ l2) ∧
+      Locus c (l1, l2) ∧ c.1.length = l1.length ∧ c.2.length = l2.length := by
+  obtain ⟨h', e, c, _⟩ := uniform_sim d 0 1 (by decide) ds (heap2 l1 l2)
+  refine ⟨_, run2_of_ok e, ?_⟩
+  rw [c]
+  exact ⟨uniform_multiset l1 l2 ds, uniform_locus l1 l2 ds, uniform_lengths l1 l2 ds⟩
+
+theorem pmx_any_backing (d : Disc) (n : Nat) (l1 l2 : List Nat) (c1 c2 : Nat)
+    (h1 : l1.Perm (List.range n)) (h2 : l2.Perm (List.range n)) (hc : cxPartialyMatchedOk l1 l2 c1 c2) :
+    ∃ c, run2 (CrossMutBuf.cxPartialyMatched d 0 1 c1 c2) l1 l2 = some c ∧
+      c.1.Perm (List.range n) ∧ c.2.Perm (List.range n) := by
+  obtain ⟨h', e, c, _⟩ := pmx_sim d 0 1 (by decide) (heap2 l1 l2) c1 c2 hc
+  refine ⟨_, run2_of_ok e, ?_⟩
+  rw [c]
+  exact pmx_perm n l1 l2 c1 c2 h1 h2 hc
+
+theorem upmx_any_backing (d : Disc) (n : Nat) (l1 l2 : List Nat) (ds : List Bool)
+    (h1 : l1.Perm (List.range n)) (h2 : l2.Perm (List.range n)) :
+    ∃ c, run2 (CrossMutBuf.cxUniformPartialyMatched d 0 1 ds) l1 l2 = some c ∧
+      c.1.Perm (List.range n) ∧ c.2.Perm (List.range n) := by
+  obtain ⟨h', e, c, _⟩ := upmx_sim d 0 1 (by decide) (heap2 l1 l2) ds (pm_guard n l1 l2 h1 h2)
+  refine ⟨_, run2_of_ok e, ?_⟩
+  rw [c]
+  exact upmx_perm n l1 l2 ds h1 h2
+
+theorem ox_any_backing (d : Disc) (n : Nat) (l1 l2 : List Nat) (a0 b0 : Nat)
+    (h1 : l1.Perm (List.range n)) (h2 : l2.Perm (List.range n)) (hc : cxOrderedOk l1 l2 a0 b0) :
+    ∃ c, run2 (CrossMutBuf.cxOrdered d 0 1 a0 b0) l1 l2 = some c ∧
+      c.1.Perm (List.range n) ∧ c.2.Perm (List.range n) := by
+  obtain ⟨h', e, c, _⟩ := ox_sim d 0 1 (by decide) (heap2 l1 l2) a0 b0 hc
+  refine ⟨_, run2_of_ok e, ?_⟩
+  rw [c]
+  exact ox_perm n l1 l2 a0 b0 h1 h2 hc
+
+theorem shuffle_any_backing [DecidableEq α] (d : Disc) (l : List α) (ds : List (Option Nat))
+    (hok : mutShuffleIndexesOk l ds) :
+    ∃ out, run1 (CrossMutBuf.mutShuffleIndexes d 0 ds) l = some out ∧ out.Perm l ∧ out.length = l.length := by
+  obtain ⟨h', e, c, _⟩ := shuffle_sim d 0 ds (heap1 l) hok
+  exact ⟨_, run1_of_ok e, shuffle_perm l _ ds c⟩
+
+/-- inversion: for both disciplines (it slices, but see `inversion_repr_independent`) -/
+theorem inversion_any_backing [DecidableEq α] (d : Disc) (l : List α) (i1 i2 : Nat) (hok : mutInversionOk l i1 i2) :
+    ∃ out, run1 (CrossMutBuf.mutInversion d 0 i1 i2) l = some out ∧ out.Perm l := by
+  cases d with
+  | copy =>
+    obtain ⟨h', e, c, _⟩ := inversion_copy_sim 0 (heap1 l) (show 0 < 1 by omega) i1 i2
+    refine ⟨_, run1_of_ok e, ?_⟩
+    rw [c]; exact inversion_perm l i1 i2
+  | view =>
+    obtain ⟨h', e, c, _⟩ := inversion_view_sim 0 (heap1 l) i1 i2 hok
+    refine ⟨_, run1_of_ok e, ?_⟩
+    rw [c]; exact inversion_perm l i1 i2
+
+theorem flip_any_backing [PyNot α] (d : Disc) (l : List α) (ds : List Bool) (hok : mutFlipBitOk l ds) :
+    ∃ out, run1 (CrossMutBuf.mutFlipBit d 0 ds) l = some out ∧ out.length = l.length ∧
+      ∀ j (hj : j < l.length), out[j]? = some l[j] ∨ out[j]? = some (PyNot.pyNot l[j]) := by
+  obtain ⟨h', e, c, _⟩ := flip_sim d 0 ds (heap1 l)
+  refine ⟨_, run1_of_ok e, ?_⟩
+  rw [c]
+  exact ⟨flip_length l ds, fun j hj => flip_complement l ds hok j hj⟩
+
+theorem uniform_int_any_backing (d : Disc) (l : List Int) (low up : Bound) (ds : List (Option Int)) (out : List Int)
+    (hm : mutUniformInt l low up ds = some out) :
+    run1 (CrossMutBuf.mutUniformInt d 0 low up ds) l = some out ∧ out.length = l.length ∧
+    ∀ i (hi : i < l.length), out[i]? = some l[i] ∨
+      ∃ v xl xu, out[i]? = some v ∧ boundAt low i = some xl ∧ boundAt up i = some xu ∧ xl ≤ v ∧ v ≤ xu := by
+  obtain ⟨h', e, c, _⟩ := uniformInt_sim d 0 low up ds (heap1 l) out hm
+  refine ⟨by rw [run1_of_ok e, c], ?_⟩
+  exact uniform_int_bounds l low up ds out hm
+
+example : [2, 0, 1, 3].Perm (List.range 4) ∧ [3, 2, 1, 0].Perm (List.range 4) ∧ cxPartialyMatchedOk [2, 0, 1, 3] [3, 2, 1, 0] 4 1 := by decide
+example : run2 (CrossMutBuf.cxPartialyMatched .view 0 1 4 1) [2, 0, 1, 3] [3, 2, 1, 0] = some ([0, 3, 1, 2], [2, 0, 1, 3]) := by decide
+example : cxOrderedOk [0, 1, 2, 3, 4] [4, 3, 2, 1, 0] 3 1 := by decide
+example : run2 (CrossMutBuf.cxOrdered .view 0 1 3 1) [0, 1, 2, 3, 4] [4, 3, 2, 1, 0] = some ([0, 3, 2, 1, 4], [4, 1, 2, 3, 0]) := by decide
+example : mutShuffleIndexesOk [0, 1, 2, 3] [some 2, none, some 0, none] := by decide
+example : mutFlipBitOk [1, 0, (1 : Int)] [true, true, false] := by decide
+example : run1 (CrossMutBuf.mutFlipBit .view 0 [true, true, false]) [1, 0, (1 : Int)] = some [0, 1, 1] := by decide
+example : mutUniformInt [7, 7, 7] (.scalar 0) (.seq [1, 3, 5, 9]) [some 1, none, some 4] = some [1, 7, 4] := by decide
+
+end Repr
 
 end C09
